@@ -31,7 +31,7 @@ var extraExplain = map[string]string{
 	"C05": "R5.4 mutual assignability in ComparableTo in both directions with the right operand each, untyped arms pair operand/type correctly (symmetry).",
 	"C06": "R6.2 also: restoreArgs restores every saved field unconditionally (a guard is tolerated only if it is a disjunction of inequality tests naming every restored field); R6.5 the check loops of the functions that receive a candidate's argument list (matchFuncArgs, matchVariadicArgs) cover every element.",
 	"C07": "R7.4 the result and error returned by infer are produced by the current call (no field of memory reachable from a parameter; the checker's error callback stores into no such field); R7.5 every acceptance site of an operand type (matchFuncCall, matchType, DefaultConv, AssignableConv, checkAssignType for the blank identifier) recognises the deferred-inference placeholder type and forces the inference.",
-	"C08": "R8.3 on every path of findMember no depth-0 lookup (normalField, method) follows a promoted lookup (embeddedField, field); R8.4 = R3.5 (method-expression receiver is the written type).",
+	"C08": "R8.3 on every path of findMember no depth-0 lookup (normalField, method) follows a promoted lookup (embeddedField, field); R8.4 = R3.5 (method-expression receiver is the written type); R8.5 a loop that descends into embedded fields (tests Embedded() and hands the field's type to a lookup) does not apply the access test to the embedded field itself: promotion passes through unexported embedded fields.",
 	"C09": "R9.3 is path-based: on every normal path of importName (loops taken up to twice) the returned candidate was tested false against declared names and the file's import names after its last assignment, and is registered; R9.4 markUsed walks the file's whole declaration list and reaches ast.Walk for every element; R9.5 package-qualified references use the file's shared import identifier node itself (never a copy); R9.6 newImport marks the file dirty on every path (defect found, repaired in /repo).",
 	"C10": "R10.3 tolerates a labels!=nil guard around checkLabels; R10.5 a function body starts with empty label and panic-call tables (labels are function-scoped).",
 	"C11": "R11.2 the loop that zero-fills omitted arguments is covered by an isParamOptional test over the same index range; R11.3 every normal path of RangeAssignThen takes over the statements emitted while the range header was built (hoisted any-member assertions).",
